@@ -28,6 +28,9 @@ type Verdict struct {
 	Trigger    bool        `json:"trigger"` // the property's trigger condition occurred (non-trivial run)
 	Tags       []string    `json:"tags,omitempty"`
 	Unknown    int         `json:"unknown,omitempty"` // inconclusive sub-checks (never reported)
+	// Harness: something the harness itself depends on (not the property) is missing in the tree under
+	// test, e.g. a debug log line an oracle reads: the check stops with exit status 2, never a VIOLATION
+	Harness string `json:"harness,omitempty"`
 }
 
 func (v *Verdict) Add(prop, sig, detail string, a ...any) {
